@@ -41,7 +41,7 @@ structure Case where
   f : Nat
   c : Cmd
 
-def parseCase : List String → Option Case
+def parseCase' : List String → Option Case
   | "c" :: ct :: "p" :: p :: "f" :: f :: "s" :: s :: "r" :: r :: "t" :: t :: "b" :: b :: "m" :: m :: "g" :: g ::
     "k" :: k :: "d" :: d :: "W" :: rest => do
     let (conns, rest) ← section_ "conns" parseConn rest
@@ -52,8 +52,14 @@ def parseCase : List String → Option Case
     let f ← f.toNat?
     if f ≥ conns.length then none
     pure ⟨⟨conns, maps, codes, doms⟩, f,
-      ⟨← ct.toNat?, p == "1", s, r, t, b == "1", ← m.toInt?, ← g.toInt?, ← k.toInt?, ← d.toInt?⟩⟩
+      ⟨← ct.toNat?, p == "1", s, r, t, b == "1", ← m.toInt?, ← g.toInt?, ← k.toInt?, ← d.toInt?, 0⟩⟩
   | _ => none
+
+/-- `x …` marks an excluded point of the correspondence (ambiguous default DNS target: the implementation's choice
+depends on Go's map iteration order); such cases are judged by `holds` only. -/
+def parseCase : List String → Option Case
+  | "x" :: rest => parseCase' ("c" :: rest)
+  | ts => parseCase' ts
 
 /-! rendering -/
 
